@@ -144,15 +144,26 @@ void h_merge_from_empty() {
 
 // ================= merge_from: A holds one type, B (already renumbered to a fresh range) two types and one function
 static InterrogateFunction g_fn;
-void h_merge_from() {
-  int vin_ia = nondet_int(), vin_ib1 = nondet_int(), vin_ib2 = nondet_int(), vin_if = nondet_int();
-  __CPROVER_assume(vin_ia > 0 && vin_ib1 > 0 && vin_ib2 > 0 && vin_if > 0);
-  __CPROVER_assume(vin_ia != vin_ib1 && vin_ia != vin_ib2 && vin_ib1 != vin_ib2 && vin_if != vin_ia && vin_if != vin_ib1 && vin_if != vin_ib2);   // disjoint index ranges (read() renumbers first)
+// names: scenario < 0 -> symbolic (not run: too heavy); otherwise concrete (name, true name) triples
+static void merge_from_case(int scenario) {
+  int vin_ia, vin_ib1, vin_ib2, vin_if;
+  if (scenario < 0) {
+    vin_ia = nondet_int(); vin_ib1 = nondet_int(); vin_ib2 = nondet_int(); vin_if = nondet_int();
+    __CPROVER_assume(vin_ia > 0 && vin_ib1 > 0 && vin_ib2 > 0 && vin_if > 0);
+    __CPROVER_assume(vin_ia != vin_ib1 && vin_ia != vin_ib2 && vin_ib1 != vin_ib2 && vin_if != vin_ia && vin_if != vin_ib1 && vin_if != vin_ib2);   // disjoint index ranges (read() renumbers first)
+  } else { vin_ia = 2; vin_ib1 = (scenario & 1) ? 7 : 5; vin_ib2 = (scenario & 1) ? 5 : 7; vin_if = 6; }   // concrete, disjoint, in both orders
   static InterrogateType ta, tb1, tb2;
   g_vu_shape = 0; g_vu_k = 0;                        // lists empty; names set below
   havoc_InterrogateType(ta); havoc_InterrogateType(tb1); havoc_InterrogateType(tb2); havoc_InterrogateFunction(g_fn);
   g_vu_shape = -1;
-  vu_havoc_string(ta._name); vu_havoc_string(ta._true_name); vu_havoc_string(tb1._name); vu_havoc_string(tb1._true_name); vu_havoc_string(tb2._name); vu_havoc_string(tb2._true_name);
+  switch (scenario) {
+  case 0: ta._name = "I"; ta._true_name = "I"; tb1._name = "I"; tb1._true_name = "I"; tb2._name = "J"; tb2._true_name = "J"; break;         // shared top-level type
+  case 1: ta._name = "I"; ta._true_name = "I"; tb1._name = "I"; tb1._true_name = "O::I"; tb2._name = "O"; tb2._true_name = "O"; break;      // nested O::I is not the top-level I
+  case 2: ta._name = "I"; ta._true_name = "O::I"; tb1._name = "K"; tb1._true_name = "K"; tb2._name = "I"; tb2._true_name = "O::I"; break;  // same true name, second position
+  case 3: ta._name = "I"; ta._true_name = "I"; tb1._name = "J"; tb1._true_name = "J"; tb2._name = "K"; tb2._true_name = "K"; break;         // nothing shared
+  case 4: ta._name = "I"; ta._true_name = "I"; tb1._name = ""; tb1._true_name = "I"; tb2._name = "K"; tb2._true_name = "K"; break;          // unnamed type is never identified
+  default: vu_havoc_string(ta._name); vu_havoc_string(ta._true_name); vu_havoc_string(tb1._name); vu_havoc_string(tb1._true_name); vu_havoc_string(tb2._name); vu_havoc_string(tb2._true_name); break;
+  }
   __CPROVER_assume(!(tb1._true_name == tb2._true_name));                    // B is a consistent database
   ta._outer_class = 0; ta._wrapped_type = 0; ta._destructor = 0;          // A's references point inside A (there is nothing else)
   tb1._outer_class = 0; tb1._wrapped_type = vin_ib2; tb1._destructor = vin_if;
@@ -178,3 +189,9 @@ void h_merge_from() {
   if (!id2) OBL(g_db._type_map[vin_ib2]._outer_class == m1, "C13.merge_from: a copied type's references follow the identification");
   VU_REACHED();
 }
+void h_merge_from() { merge_from_case(-1); }
+void h_merge_from_shared() { merge_from_case(0); }
+void h_merge_from_nested_same_name() { merge_from_case(1); }
+void h_merge_from_shared_second() { merge_from_case(2); }
+void h_merge_from_disjoint() { merge_from_case(3); }
+void h_merge_from_unnamed() { merge_from_case(4); }
